@@ -12,8 +12,11 @@
 #include "souffle/utility/VerifHooks.h"
 #include <condition_variable>
 #include <cstdint>
+#include <cstdio>
+#include <cstdlib>
 #include <cstring>
 #include <functional>
+#include <iostream>
 #include <map>
 #include <mutex>
 #include <string>
@@ -58,8 +61,9 @@ public:
     Rng rng{1};
     int switchPercent = 50;  // probability (in %) to leave the thread that ran last
     int last = -1;
-    std::size_t maxSteps = 100000;
-    bool stuck = false;  // no runnable thread although some are unfinished (deadlock / exhausted replay)
+    std::size_t maxSteps = 30000;
+    bool stuck = false;  // no runnable thread although some are unfinished (deadlock), or step budget exhausted
+    bool exitOnStuck = true;
 
     static Scheduler*& instance() {
         static Scheduler* s = nullptr;
@@ -156,8 +160,17 @@ public:
                     pick = stay ? last : cand[rng.below(cand.size())];
                 }
                 if (pick < 0 || taken.size() >= maxSteps) {
-                    // deadlock, exhausted replay schedule or step budget: let everything run freely to finish
+                    // deadlock or step budget exhausted (livelock): the threads cannot be finished, so the process reports
+                    // the case as its answer line and exits with status 3; the python side restarts the harness on the
+                    // remaining cases (common.run_resumable)
                     stuck = true;
+                    if (exitOnStuck) {
+                        std::string line = "STUCK-EXIT steps=" + std::to_string(taken.size()) + (pick < 0 ? " deadlock" : " step-budget") + " sched";
+                        for (std::size_t k = 0; k < taken.size() && k < 400; ++k) line += " " + std::to_string(taken[k].tid);
+                        line += "\n";
+                        std::cout << line << std::flush;
+                        std::_Exit(3);
+                    }
                     souffle::verif::yieldHook().store(nullptr);
                     instance() = nullptr;
                     for (int t = 0; t < n; ++t)
